@@ -168,4 +168,108 @@ func init() {
 			{Dir: "merkleblock", Name: "ZZ_C12_extract", Variant: "n<=4,flags<=1B,full hashes", Tiers: "thorough", Reach: []string{"extracted", "accepted"}, Tweak: merkleCfg("maxn", 4, "maxflagbytes", 1, "bigcounthashes", 2)},
 		},
 	})
+	reg(&PropSpec{
+		ID: "C13",
+		Harnesses: []HarnessSpec{
+			{Dir: "gcs", Name: "ZZ_C13_members", Variant: "n<=2", Reach: []string{"end"}, Tweak: gcsCfg("maxn", 2)},
+			{Dir: "gcs", Name: "ZZ_C13_agree", Variant: "n<=1,q<=2", Reach: []string{"end"}, Tweak: gcsCfg("maxn", 1, "maxq_items", 2)},
+			{Dir: "gcs", Name: "ZZ_C13_agree", Variant: "n<=2,q<=2", Tiers: "thorough", Reach: []string{"end"}, Tweak: gcsCfg("maxn", 2, "maxq_items", 2)},
+			{Dir: "gcs", Name: "ZZ_C13_members", Variant: "n<=3,allP", Tiers: "thorough", Reach: []string{"end"}, Tweak: gcsCfg("maxn", 3, "allp", 1)},
+		},
+	})
+	reg(&PropSpec{
+		ID: "C14",
+		Harnesses: []HarnessSpec{
+			{Dir: "gcs", Name: "ZZ_C14_fastreduction", Reach: []string{"end"}, Tweak: func(c *sym.HarnessCfg, tier string) { c.UFMul = true }},
+			{Dir: "gcs", Name: "ZZ_C14_encoding", Variant: "n<=2", Reach: []string{"end"}, Tweak: gcsCfg("maxn", 2)},
+			{Dir: "gcs", Name: "ZZ_C14_serialise", Variant: "bytes<=3", Reach: []string{"end", "rejected"}, Tweak: params(false, "maxbytes", 3)},
+			{Dir: "gcs", Name: "ZZ_C14_encoding", Variant: "n<=3,allP", Tiers: "thorough", Reach: []string{"end"}, Tweak: gcsCfg("maxn", 3, "allp", 1)},
+			{Dir: "gcs", Name: "ZZ_C14_serialise", Variant: "bytes<=8", Tiers: "thorough", Reach: []string{"end"}, Tweak: params(false, "maxbytes", 8)},
+		},
+	})
+	meta("C01", []string{
+		"SHA-256 and RIPEMD-160 are uninterpreted functions (same symbol inside the code under test and in the harness reference)",
+		"the CashAddr reference encoder in harness/root/common.go is a correct transcription of the specification",
+	}, []string{"legacy Base58Check kinds and raw public keys: see harness list (added when present)", "correctness of the hash primitives"},
+		"quick: all 2^160 / 2^256 hashes (fully symbolic) x 6 nets x {P2PKH,P2SH,SLP forms,P2SH32} x 4 renderings; scripts of 0..3 bytes", "thorough: same, scripts of 0..8 bytes")
+	meta("C02", []string{
+		"base58.Decode of a string that is not the output of base58.Encode on this path is abstracted: empty if a character is outside the alphabet, otherwise an arbitrary byte string of any length such a string can decode to (over-approximation; the exact behaviour is established by C07)",
+		"branch feasibility is not queried (lazy mode): infeasible paths only add vacuous obligations",
+	}, []string{"strings whose checksum is NOT valid (covered by C03)", "payload lengths outside the tier's list"},
+		"quick: payload symbol counts {0,1,2,8,33,34,35,40,53,54}, all symbols symbolic, 6 nets x {cash,slp,foreign,unknown prefix} x {with,without prefix} x {lower,upper}", "thorough: every payload length 0..104")
+	meta("C03", []string{
+		"reduction used: an error pattern may be shifted so that its last non-zero symbol is the last symbol of the string (x is invertible modulo the generator; the remainder is GF(2)-affine in the symbols) - so supports containing the last position at the maximal length cover all shorter windows",
+		"the payload and the prefix cancel out of the acceptance condition; this cancellation is performed by the engine's affine normaliser on the real polyMod/bech32Polymod code for the executed prefix",
+	}, []string{"CashAddr weight-5 patterns on strings longer than 61 symbols (thorough covers weight 5 up to 61 symbols, weight 4 up to 112)", "bech32 human-readable parts other than the executed one (enter only through the affine constant)"},
+		"quick: cashaddr w<=3 at 112 symbols (6105 supports), w<=4 at 42 symbols (10660); bech32 w<=3 at 88 symbols (3741)", "thorough: + cashaddr w<=5 at 42 and 61 symbols, w<=4 at 112; bech32 w<=4 at 88 symbols")
+	meta("C09", []string{
+		"MurmurHash3 is an uninterpreted function inside the filter harnesses; ZZ_C09_murmur proves it equal to an independent transcription of the specification for each data length in the bound",
+		"unsigned x % m with symbolic m is an uninterpreted function constrained by r < m (sound over-approximation)",
+		"math.Log returns an arbitrary float64 (including NaN/Inf); out-of-range float->uint32 conversions yield an arbitrary value",
+	}, []string{"more than one insertion per harness run is covered by induction on 'bits only grow' + 'exact new bit array' from an arbitrary prior state (glue not solver-checked)", "hash-function counts above the tier bound in the insertion harness"},
+		"quick: filter length 1..36000 (symbolic), HashFuncs 0..4 (case split), item lengths {0,1,2,3,4,32,36}; Murmur equivalence for lengths 0..12", "thorough: HashFuncs up to 8 (insert) / 50 (query), Murmur lengths 0..36")
+	meta("C10", []string{
+		"txscript.PushedData / GetScriptClass / MsgTx.TxHash are nondeterministic stubs (arbitrary parse result per script, arbitrary class, arbitrary txid)",
+		"MurmurHash3 uninterpreted, x % m abstracted as in C09",
+	}, []string{"block scanning (GetMatchedIndices) and intra-block spend graphs", "real script parsing", "transactions larger than the tier bound"},
+		"quick: HashFuncs<=1, <=1 output, <=1 input, <=1 push of <=1 byte per script, all three update flags (symbolic)", "thorough: HashFuncs<=2, <=2 outputs, <=2 pushes")
+	meta("C11", []string{
+		"double-SHA256 is an uninterpreted, collision-free function (pairwise injectivity lemmas on each path)",
+		"transaction ids are symbolic except for a distinct concrete first byte (no two transactions of a block share an id)",
+		"bloom matching is replaced by the chosen subset (stub of Filter.MatchTxAndUpdate)",
+	}, []string{"transaction counts above the tier bound", "blocks containing duplicate transaction ids"},
+		"quick: n = 1..5 transactions, all 2^n subsets, three builders", "thorough: n up to 9")
+	meta("C12", []string{
+		"double-SHA256 is an uninterpreted, collision-free function",
+		"hash pointers in the message are non-nil (guaranteed by wire decoding)",
+	}, []string{"counts/hash lists/flag strings above the tier bound", "a second ExtractMatches call on the same object"},
+		"quick: declared count in {0,1,2,MaxTxnCount,MaxTxnCount+1,2^32-1}, 0..3 hashes over a 4-element symbolic alphabet, all flag strings of 0..1 bytes", "thorough: count<=4, full 256-bit symbolic hashes")
+	meta("C13", []string{
+		"SipHash-2-4 is an uninterpreted function of (item, key): item hashes are arbitrary 64-bit values",
+		"fastReduction is replaced by its contract floor(v*NM/2^64) < NM (uninterpreted below that bound); the contract is proved in C14 (ZZ_C14_fastreduction)",
+		"M < 2^40 and (N*M) >> P <= 2 (unary runs of at most 2 ones)",
+		"counterexamples are replayed against the real gcs code with SipHash pinned (build overlay) to the values the solver chose",
+	}, []string{"data sets larger than the tier bound; P values outside {0,1,7,8,9,19,31,32} in quick", "SipHash itself"},
+		"quick: N<=2 items (members), N<=1 with <=2 queries (agreement), P in {0,1,7,8,9,19,31,32}, M symbolic", "thorough: N<=3 with all P in 0..32; agreement with N<=2")
+	meta("C14", []string{
+		"64x64-bit products of two symbolic operands are a commutative uninterpreted function with the range lemma (product of bounded factors is bounded); fastReduction and math/bits.Mul64 are compared over the same four partial products",
+		"SipHash uninterpreted; fastReduction contract as in C13 for the encoding harness",
+		"CompactSize / bytes.Buffer / wire.ReadVarInt are executed for real (non-blocking select takes its default arm)",
+	}, []string{"the block-filter builder (gcs/builder): entry set, key derivation, filter hash/header", "N above the bound in the encoding harness"},
+		"quick: all (v,NM) for fastReduction; encoding with N<=2, P list, M symbolic; serialisation with <=3 filter bytes, all four CompactSize classes of N, P in 0..33", "thorough: N<=3 all P; <=8 filter bytes")
+	meta("C17", []string{
+		"float64 division by a constant is relaxed to |fma(q,c,-a)| <= RTP(|q|*c*2^-53) and |q|<=|a| (a sound superset of the correctly rounded quotient)",
+		"monotonicity of the IEEE product f*1e8 in f is assumed (only the rounding step is proved monotone)",
+	}, []string{"decimal text produced by strconv.FormatFloat", "|f*1e8| >= 2^62"},
+		"all float64 with |x| < 2^62; all integers |a| <= 2.1e15; units -8..12", "same as quick")
+	meta("C18", nil, []string{"transactions larger than the tier bound"},
+		"quick: <=2 inputs and <=2 outputs (scripts <=1 byte) jointly; 3 inputs; 3 outputs with scripts <=2 bytes; all hashes/indices/amounts symbolic", "thorough: 4 inputs; 4 outputs; 3x3 jointly")
+	meta("C19", []string{"coin values in [0,2^50], value-ages in [0,2^56], targets/min-change in [0,2^52] (no int64 overflow)"},
+		[]string{"coin lists longer than the tier bound", "SimpleCoin's own value*confirmations product"},
+		"quick: 0..2 coins, all parameters symbolic (MaxInputs in -1..6); coin-set histories of 3 operations", "thorough: 0..3 coins; histories of 5 operations")
+	meta("C20", []string{
+		"the step from 'every access to the shared message happens inside one critical section of the filter's mutex, which is released on return' to data-race freedom and linearizability is the standard mutex argument and is trusted, not derived by the solver",
+	}, []string{"bounded interleaving exploration", "escape of the message pointer through MsgFilterLoad()/LoadFilter (documented API behaviour)", "GCS immutability is checked in the gcs harnesses when present"},
+		"every exported *Filter method from loaded/unloaded states, HashFuncs<=2", "same")
+	props["C20"].Explanation = "Lock-discipline verification: each exported method of bloom.Filter is executed symbolically from an arbitrary state with sync.Mutex modelled as a ghost flag; every load/store of the shared message (and everything reachable from it) while the flag is down, a double lock, or a return with the flag up is an obligation failure, which is then confirmed natively by an 8-goroutine stress run under the race detector before it is reported."
+}
+
+func gcsCfg(kv ...interface{}) func(c *sym.HarnessCfg, tier string) {
+	return func(c *sym.HarnessCfg, tier string) {
+		c.UFCalls = map[string]bool{"github.com/aead/siphash.Sum64": true}
+		c.Stubs = map[string]string{"github.com/gcash/bchutil/gcs.fastReduction": "zzStubFastReduction"}
+		for i := 0; i+1 < len(kv); i += 2 {
+			c.Params[kv[i].(string)] = kv[i+1].(int)
+		}
+	}
+}
+
+func meta(id string, assumptions, outside []string, quick, thorough string) {
+	p := props[id]
+	if p == nil {
+		return
+	}
+	p.Assumptions = assumptions
+	p.Outside = outside
+	p.Bounds = map[string]string{"quick": quick, "thorough": thorough}
 }
